@@ -1,5 +1,5 @@
 """bin/check <ID> --replay <file>: re-run a recorded violation against the current tree."""
-import json
+import json, os
 from common import *
 
 
@@ -10,6 +10,15 @@ def run(pid, path):
     if kind == "proto":
         import proto_checks
         proto_checks.run_scripts(pid, "replay", p["script"], p["seed"], p["cfg"])
+        return
+    if kind == "revpair":
+        import proto_checks
+        tp = os.path.join(WORK, "C05_run", "replay.revpair.ndjson")
+        os.makedirs(os.path.dirname(tp), exist_ok=True)
+        harness(["revpair", "--out", tp, "--seed", p["seed"], "--n", p.get("n", 60)])
+        v = validate_trace("Trace_RevPair", "Trace_RevPair.cfg", tp, name="trace_C05_replay")
+        if not v["accepted"]:
+            raise Violation(pid, "revocation pair event rejected by Trace_RevPair", p)
         return
     for modname in ("game_checks", "lib_checks", "wire_checks", "misc_checks"):
         try:
